@@ -268,8 +268,8 @@ def compare_result(ctx, res, exp, operands, detail, mech):
     if exp[0] == "code":
         t = O.TEXTS[exp[1]]
         ctx.count("get_raw_checked")
-        if res.get_raw() != t[exp[2] : exp[3]]:
-            ctx.violation("get_raw", "get_raw is not the exact slice", dict(detail, got=res.get_raw(), exp=t[exp[2] : exp[3]]))
+        if res.get_raw() != O.raw_slice(exp[1], exp[2], exp[3]):
+            ctx.violation("get_raw", "get_raw is not the exact slice", dict(detail, got=res.get_raw(), exp=O.raw_slice(exp[1], exp[2], exp[3])))
 
 
 def single_pool():
@@ -298,7 +298,7 @@ def origin_checks(ctx):
                     co = O.build_origin(("code", s, a, b))
                     ctx.evaluations += 1
                     ctx.count("get_raw_checked")
-                    if co.get_raw() != t[a:b]:
+                    if co.get_raw() != O.raw_slice(s, a, b):
                         ctx.violation("get_raw", "get_raw is not the exact slice", {"src": s, "range": (a, b)})
 
     def do_pair(a, b, oa, ob):
